@@ -577,4 +577,50 @@ theorem padding_untouched_partial (c : VesaFb.Cons) (f : VesaFb.Font) (fb : Arra
           · rfl
       · rfl
 
+/-! ## colour packing -/
+
+/-- **pack_color (component)** — one colour component `v` of mask size `size` at bit `pos`, for
+every 8-bit `size`/`pos`: when the field fits (`size ≤ 8`, `pos+size ≤ bits`) it is the top
+`size` bits of `v` placed at `pos` (no truncation); a mask size above 8 makes `8-size` wrap to a
+shift count ≥ 8 and the component contributes 0 — Go's shift semantics, reproduced by the model. -/
+theorem pack_component (v size pos bits : Nat) (hv : v < 256) (hs : size < 256) :
+    (size ≤ 8 → pos + size ≤ bits →
+      VesaFb.component v size pos (2 ^ bits) = (v / 2 ^ (8 - size)) * 2 ^ pos ∧ v / 2 ^ (8 - size) < 2 ^ size) ∧
+    (8 < size → VesaFb.component v size pos (2 ^ bits) = 0) := by
+  unfold VesaFb.component
+  constructor
+  · intro h8 hb
+    have hk : (8 + (256 - size % 256)) % 256 = 8 - size := by omega
+    rw [hk, Nat.shiftRight_eq_div_pow, Nat.shiftLeft_eq]
+    have hx : v / 2 ^ (8 - size) < 2 ^ size := by
+      rw [Nat.div_lt_iff_lt_mul (Nat.pow_pos (by decide))]
+      rw [← Nat.pow_add, show size + (8 - size) = 8 by omega]
+      exact hv
+    refine ⟨Nat.mod_eq_of_lt ?_, hx⟩
+    calc v / 2 ^ (8 - size) * 2 ^ pos < 2 ^ size * 2 ^ pos := Nat.mul_lt_mul_of_pos_right hx (Nat.pow_pos (by decide))
+      _ = 2 ^ (size + pos) := (Nat.pow_add _ _ _).symm
+      _ ≤ 2 ^ bits := Nat.pow_le_pow_right (by decide) (by omega)
+  · intro h8
+    have hk : 8 ≤ (8 + (256 - size % 256)) % 256 := by omega
+    have : v >>> ((8 + (256 - size % 256)) % 256) = 0 := by
+      rw [Nat.shiftRight_eq_div_pow]
+      apply Nat.div_eq_of_lt
+      calc v < 2 ^ 8 := hv
+        _ ≤ _ := Nat.pow_le_pow_right (by decide) hk
+    rw [this]; simp
+
+/-- **pack_color** — `packColor16/24` return the little-endian bytes of the OR of the three
+components (16-bit resp. 32-bit intermediate), for every mask layout. -/
+theorem pack_color (c : VesaFb.Cons) (idx : Nat) (rgb : UInt8 × UInt8 × UInt8) (h : c.palette[idx]? = some rgb) :
+    VesaFb.packColor16 c idx = some [UInt8.ofNat (VesaFb.packed c rgb 65536), UInt8.ofNat (VesaFb.packed c rgb 65536 >>> 8)] ∧
+    VesaFb.packColor24 c idx = some [UInt8.ofNat (VesaFb.packed c rgb 4294967296), UInt8.ofNat (VesaFb.packed c rgb 4294967296 >>> 8),
+      UInt8.ofNat (VesaFb.packed c rgb 4294967296 >>> 16)] ∧
+    ∀ m, VesaFb.packed c rgb m = VesaFb.component rgb.1.toNat c.rSize c.rPos m ||| VesaFb.component rgb.2.1.toNat c.gSize c.gPos m |||
+      VesaFb.component rgb.2.2.toNat c.bSize c.bPos m := by
+  simp [VesaFb.packColor16, VesaFb.packColor24, h, VesaFb.packed]
+
+/-- non-vacuity: white in 5-6-5 is `0xFFFF`; a 12-bit red mask contributes nothing -/
+example : VesaFb.packed { VesaFb.new 8 8 16 16 11 5 5 6 0 5 with } (255, 255, 255) 65536 = 65535 := by decide
+example : VesaFb.component 255 12 0 65536 = 0 := by decide
+
 end Firefly.C19
